@@ -575,7 +575,7 @@ func (e *SpecEnv) equal(x *SExpr, a, b *Val) *Term {
 func (e *SpecEnv) sel(x *SExpr) *Val {
 	// qualified identifier?
 	if id := x.Args[0]; id.Kind == "ident" {
-		if _, shadow := e.vars[id.Name]; !shadow && (e.fr == nil || (e.fr.params[id.Name] == nil && e.localByNameSafe(id.Name) == nil)) {
+		if !e.isLocalName(id.Name) {
 			if p := e.run.v.findImport(e.typesPkg(), id.Name); p != nil {
 				if o := p.Scope().Lookup(x.Name); o != nil {
 					if v := e.objVal(o); v != nil {
@@ -629,6 +629,25 @@ func (e *SpecEnv) sel(x *SExpr) *Val {
 	}
 	lo, hi := fieldRange(st, i, e.te)
 	return &Val{T: st.Field(i).Type(), L: v.L[lo:hi]}
+}
+
+// isLocalName: does name denote a bound variable, parameter, captured variable or local (and therefore not a package)?
+func (e *SpecEnv) isLocalName(name string) bool {
+	if _, ok := e.vars[name]; ok {
+		return true
+	}
+	if e.fr == nil {
+		return false
+	}
+	if e.fr.params[name] != nil {
+		return true
+	}
+	for fv := range e.fr.free {
+		if fv.Name() == name {
+			return true
+		}
+	}
+	return e.localByNameSafe(name) != nil
 }
 
 func (e *SpecEnv) localByNameSafe(name string) (v *Val) {
@@ -774,7 +793,7 @@ func (e *SpecEnv) call(x *SExpr) *Val {
 	}
 	if callee.Kind == "sel" && callee.Args[0].Kind == "ident" {
 		pk := callee.Args[0].Name
-		if _, shadow := e.vars[pk]; !shadow && (e.fr == nil || (e.fr.params[pk] == nil && e.localByNameSafe(pk) == nil)) {
+		if !e.isLocalName(pk) {
 			if p := e.run.v.findImport(e.typesPkg(), pk); p != nil {
 				if cs := e.run.v.contracts[p.Path()]; cs != nil {
 					if sf, ok := cs.Specs[callee.Name]; ok {
